@@ -50,6 +50,10 @@ Definition raise_marker (e : Z) : val := VOpq (1000 + e).
 Definition unmark (v : val) : outcome :=       (* return_or_raise *)
   match v with VOpq n => if (1000 <=? n)%Z then OExc (n - 1000) else OVal v | _ => OVal v end.
 
+(* an exception OBJECT handed back as an ordinary result (returned, not raised): never stored by simple.py *)
+Definition excobj (e : Z) : val := VOpq (2000 + e).
+Definition is_excobj (v : val) : bool := match v with VOpq n => (2000 <=? n)%Z | _ => false end.
+
 (* ---------- simple.py _wrap ---------- *)
 (* o = what the wrapped function does if it is executed now; returns (map, outcome delivered, executed?) *)
 Definition simple_call (m : tmap) (now : Z) (k : key) (ttl : Z) (c : condk) (o : outcome) : tmap * outcome * bool :=
@@ -57,7 +61,7 @@ Definition simple_call (m : tmap) (now : Z) (k : key) (ttl : Z) (c : condk) (o :
   | Some v => (m, unmark v, false)
   | None =>
       let m' := match eval_cond c o, o with
-                | CRTrue, OVal v => s_write m now k v ttl
+                | CRTrue, OVal v => if is_excobj v then m else s_write m now k v ttl     (* `not isinstance(result, Exception)` *)
                 | CRExc, OExc e => s_write m now k (raise_marker e) ttl
                 | _, _ => m
                 end in
